@@ -7,6 +7,7 @@
 #![allow(dead_code)]
 mod rng;
 mod sx;
+mod c01;
 mod c02;
 mod c05;
 mod c06;
@@ -77,6 +78,7 @@ fn run_isolated(prop: &str, cases_file: &str, ncases: usize, outdir: &str, stall
 
 fn prop(id: &str) -> Prop {
     match id {
+        "C01" => Prop { gen: c01::gen, run: c01::run },
         "C08" => Prop { gen: c08::gen, run: c08::run },
         "C17" => Prop { gen: c17::gen, run: c17::run },
         "C10" => Prop { gen: c10::gen, run: c10::run },
